@@ -531,7 +531,7 @@ func verifC22TransferAmt(withAssetSender, withCloseTo bool, amountKind int) {
 		vr.Reach("optin")
 	} else if rem != 0 {
 		vr.Reach("closed")
-		if srcFrozenAtClose {
+		if srcFrozenAtClose || preCls.frozen {
 			vr.Reach("closedfrozen")
 		}
 	} else if amt != 0 && src != rcv {
